@@ -62,6 +62,9 @@ class GenericListTransformer(Generic[T]):
         self._feature_dims = feature_dims
         self._iter_kwargs = iter_kwargs
 
+        # Start from a clean slate so that re-fitting does not keep the transformers of an earlier fit
+        self.transformers = []
+
         for i, x in enumerate(X):
             # Add transformer specific keyword arguments
             # For iterable kwargs, use the i-th element of the iterable
